@@ -228,6 +228,8 @@ def options(draw, tree):
     opts["naive"] = draw(st.booleans())
     # also ask the command line for the same listing (None: no; else the spelling of times / default flags)
     opts["cli"] = draw(st.sampled_from([None, None, "iso", "float"]))
+    # the process may run with warnings turned into errors (python -W error)
+    opts["werror"] = draw(st.integers(0, 3)) == 0
     return opts
 
 
